@@ -1884,7 +1884,7 @@ class Series(ContainerOperand):
         Returns:
             :obj:`Series`
         '''
-        if shift % len(self.values):
+        if len(self.values) and shift % len(self.values):
             values = array_shift(
                     array=self.values,
                     shift=shift,
